@@ -152,5 +152,5 @@ func goArrayDelete(obj *object, name string, throw bool) bool {
 		return obj.runtime.typeErrorResult(throw)
 	}
 
-	return obj.delete(name, throw)
+	return objectDelete(obj, name, throw)
 }
